@@ -28,6 +28,11 @@ class SrcFile:
     def __init__(self, path, kind, cls=None, size=0, target=None, mtime=None, mode=None, user=None, group=None):
         self.path, self.kind, self.cls, self.size, self.target = path, kind, cls, size, target
         self.mtime, self.mode, self.user, self.group = mtime, mode, user, group
+        self.actual = None        # bytes actually readable when the file is opened (None: the size the listing reported)
+        self.read_fails = False   # a read of this file may fail (solver-chosen, at most once per run)
+
+    def readable(self):
+        return self.size if self.actual is None else self.actual
 
 
 class SourceTreeV(Model):
@@ -136,7 +141,11 @@ def install_source(ex, tree, short_reads=0):
         if not isinstance(dst, BufSlice):
             raise Unsupported('read into %r' % (dst,))
         room = dst.byte_len()
-        remaining = f.f.size - f.pos
+        if f.f.read_fails and not ex.env.get('read_failed') and ex.branch(ex.fresh_bool('read_error'), 'source read fails?'):
+            ex.env['read_failed'] = f.f.path
+            from .restoreh import IoErrorV
+            return err(IoErrorV('Other'))
+        remaining = f.f.readable() - f.pos
         n = env.ite_min(room, remaining)
         if f.short_reads > 0 and ex.branch(b_lt(1, n), 'short read possible'):
             if ex.branch(ex.fresh_bool('short'), 'short read?'):
@@ -233,10 +242,10 @@ def check_entry_content(ex, st, blocks, e, src, problems, where):
         return
     got = Data(segs).canon(ex)
     if not got.segs:
-        if src.kind == 'File' and not ex.check_holds(eq(src.size, 0))[0]:
-            problems.append('%s: entry %s has no content, the file held %s bytes' % (where, ef['apath'], src.size))
+        if src.kind == 'File' and not ex.check_holds(eq(src.readable(), 0))[0]:
+            problems.append('%s: entry %s has no content, the file held %s bytes' % (where, ef['apath'], src.readable()))
         return
-    want = Data([(src.cls, 0, src.size)]) if src.kind == 'File' else Data([])
+    want = Data([(src.cls, 0, src.readable())]) if src.kind == 'File' else Data([])
     same = got.same(ex, want)
     if same is False:
         problems.append('%s: entry %s restores to %r, the file held %r' % (where, ef['apath'], got.segs, want.segs))
@@ -333,7 +342,7 @@ def apath_lt(a, b):
 PATHS = ['/a', '/b', '/c', '/d', '/e']
 
 
-def make_tree(ex, kinds, classes, label='t', sizes=None, B=None, sym_meta=False, paths=None):
+def make_tree(ex, kinds, classes, label='t', sizes=None, B=None, sym_meta=False, paths=None, shrink=False, read_errors=False):
     """Root dir + one entry per letter of `kinds` (F file, D dir, S symlink, U unknown); file i has content class
     classes[i]; equal classes share size and content."""
     # a different tree state (label) gets different mtimes: content never changes behind an unchanged (mtime, size)
@@ -356,6 +365,13 @@ def make_tree(ex, kinds, classes, label='t', sizes=None, B=None, sym_meta=False,
                 class_size[c] = sz
             files.append(SrcFile(p, 'File', cls=c, size=class_size[c], mtime=mt, mode=sym_mode(ex, '%smode%d' % (label, i)),
                                  user='u', group=None))
+            last_file = i == max(j for j, kk in enumerate(kinds) if kk == 'F')
+            if shrink and last_file and i > 0:
+                # the (last) file is truncated between the directory listing and the read: fewer bytes than the listing reported
+                act = ex.fresh_int('%sactual%d' % (label, i), 0, None)
+                ex.assume(act <= class_size[c])
+                files[-1].actual = act
+            files[-1].read_fails = read_errors and last_file and i > 0
         elif k == 'D':
             files.append(SrcFile(p, 'Dir', mtime=mt, mode=sym_mode(ex, '%smode%d' % (label, i))))
         elif k == 'S':
@@ -433,10 +449,10 @@ def check_complete_band(ex, st, b, tree, problems, where, with_owner=True):
             total = 0
             for a in ef['addrs']:
                 total = total + field(ex, a, 'blockdir::Address', 'len')
-            if not ex.check_holds(eq(total, f.size))[0]:
-                problems.append('%s: %s address lengths sum to %s, size is %s' % (where, f.path, total, f.size))
-            okz, _m = ex.check_holds(b_not(eq(f.size, 0)))
-            if not okz and ef['addrs'] and ex.check_holds(eq(f.size, 0))[0]:
+            if not ex.check_holds(eq(total, f.readable()))[0]:
+                problems.append('%s: %s address lengths sum to %s, size is %s' % (where, f.path, total, f.readable()))
+            okz, _m = ex.check_holds(b_not(eq(f.readable(), 0)))
+            if not okz and ef['addrs'] and ex.check_holds(eq(f.readable(), 0))[0]:
                 problems.append('%s: empty file %s carries addresses' % (where, f.path))
 
 
@@ -458,7 +474,7 @@ def make_case(prog, case):
             st.mode = 'run'
             B, C, H = case['fixed_opts'] if case.get('fixed_opts') else sym_options(ex)
             tree = make_tree(ex, kinds, classes, B=B, sym_meta=case.get('sym_meta', False), paths=case.get('paths'),
-                             sizes=case.get('sizes'))
+                             sizes=case.get('sizes'), shrink=case.get('shrink', False), read_errors=case.get('read_errors', False))
             srcs = {0: {f.path: f for f in tree.files}}
             new_band = 0
             if case.get('prior') == 'built':
@@ -637,7 +653,7 @@ def check_backup_outcome(ex, d, case):
         # with a headless band directory in the history the basis stitch reports that it cannot open it (a monitor
         # message, not a failure of the backup): the same state in follow_up is judged by stats.errors alone
         clean = (errors == 0) and (bool(case.get('headless_above')) or not mon.errors)
-        if not pol.fired and not clean:
+        if not pol.fired and not ex.env.get('read_failed') and not clean:
             problems.append('%s: backup reports errors=%s monitor_errors=%d' % (where, errors, len(mon.errors)))
         if clean:
             check_complete_band(ex, st, nb, tree, problems, where, case.get('owner', True))
@@ -667,7 +683,7 @@ def check_backup_outcome(ex, d, case):
             # something was skipped: it must have been reported (it was) and the band must still be closed & consistent
             pass
     else:
-        if not pol.fired:
+        if not pol.fired and not ex.env.get('read_failed'):
             problems.append('%s: backup failed without any injected fault: %s' % (where, variant_name(ex, r[1])))
     return problems
 
